@@ -123,7 +123,8 @@ ExhQuick == {
   Fam(3, {4}, {1, 2, 3}, {1, 2}, {1}, {3}),                    \* objective, reservation, fused loop; zero tolerance
   Fam(3, {5}, {1, 2, 3}, {1, 2}, {1, 11}, {1}),                \* fused loop, objective, n_iterations
   Fam(3, {4}, {5, 6}, {1, 2}, {3, 5, 6, 7}, {5}),              \* 4 tolerances
-  Fam(2, {1}, {5, 8, 12, 13, 19}, {}, {2, 6}, {2}) }           \* ratios just above 1+t (13/8, 12/5, 19/12, 19/8): never one class
+  Fam(2, {1}, {5, 8, 12, 13, 19}, {}, {2, 6}, {2}),            \* ratios just above 1+t (13/8, 12/5, 19/12, 19/8): never one class
+  Fam(2, {2, 3}, {6, 7, 9, 10}, {}, {4}, {2}) }                \* reservations more than the absolute slack apart (9-6, 10-7, 10-6 > 2)
 \* thorough tier, exhaustive
 ExhThorough == {
   Fam(2, {1, 2, 3}, {3, 4, 5, 6, 7, 9}, {}, {2, 3, 4, 5, 6, 7, 8, 12}, {2}),
@@ -132,7 +133,8 @@ ExhThorough == {
   Fam(3, {5}, {1, 2, 3}, {1, 2}, {1, 11}, {1}),
   Fam(3, {4}, {4, 5, 6}, {1, 2}, {3, 6}, {5}),
   Fam(4, {4}, {5, 6}, {1, 2}, {1, 5}, {1}),
-  Fam(2, {1, 2}, {5, 8, 12, 13, 19}, {}, {2, 6}, {2}) }
+  Fam(2, {1, 2}, {5, 8, 12, 13, 19}, {}, {2, 6}, {2}),
+  Fam(2, {2, 3}, {6, 7, 9, 10, 13}, {}, {4, 5}, {2}) }
 
 RandAll == <<
   \* up to 12 rows, every schema, every tolerance; small values (wide ratios)
